@@ -17,7 +17,7 @@ RULE = ('pairs/triples of Capacities over all fields discovered from a fresh Cap
         'has a non-zero field')
 REQUIRED = ['mon:add', 'mon:sub', 'mon:lt', 'mon:gt', 'mon:eq', 'mon:negative_fields', 'mon:positive_fields',
             'law:add-sub-inverse', 'law:commutative', 'law:free-plus-allocated', 'law:print-negative',
-            'law:lt-iff-no-negative', 'law:gt-mirror', 'law:eq-reflexive', 'law:eq-symmetric']
+            'law:lt-iff-no-negative', 'law:gt-mirror', 'law:eq-reflexive', 'law:eq-symmetric', 'law:compare-with-negative-operand', 'negative-operand-compared']
 ASSUMPTIONS = ['field values are ints >= 0 set through the public constructor; a field set to None (a constructor '
                'artefact that to_json drops) is outside the claimed domain',
                'held on the executions observed, not a proof']
@@ -243,6 +243,21 @@ def one_case(ctx, a, b, c):
             # positive_fields on the difference
             r.positive_fields(F[:2])
             r.positive_fields(F[0])
+        # comparisons whose operands are themselves differences (over-allocation leaves negative fields):
+        # the 'fits within' relation must still agree with subtraction, field by field
+        ctx.count('law:compare-with-negative-operand')
+        zero = Capacities()
+        sparse = Capacities(**{f: A[f] for f in F[::3]})
+        for x, y in ((c, a - b), (a - b, c), (a - b, b - a), (zero, a - b), (sparse, b - a), (zero, b - a)):
+            X, Y = dd(x), dd(y)
+            exp = all(X[f] <= Y[f] for f in F)
+            if (x < y) != exp or (y > x) != exp or ((y - x).negative_fields() == []) != exp:
+                ctx.violation('C15/lt-with-negative-operand', 'a fits in b exactly when b-a has no negative field (operands may carry '
+                              'negative fields left by an earlier subtraction)', {'x': X, 'y': Y, 'lt': (x < y), 'gt_mirror': (y > x),
+                                                                                 'negative_fields_of_y_minus_x': (y - x).negative_fields()})
+                break
+            if min(Y.values()) < 0:
+                ctx.count('negative-operand-compared')
         # operands untouched by everything above
         if dd(a) != A or dd(b) != B or dd(c) != C:
             ctx.violation('C15/operand-mutated', 'operands are never modified', dict(w, a_now=dd(a), b_now=dd(b)))
